@@ -1463,7 +1463,7 @@ impl<'a> Gen<'a> {
 /// Every recursive production of the parser, as a (prefix, suffix) pair that is
 /// repeated `depth` times around an atom, plus left-/right-leaning operator chains.
 pub const DEEP_SHAPES: &[&str] = &[
-    "paren", "list", "map", "not", "neg", "plus-unary", "add-chain", "and-chain", "or-chain", "pow-chain",
+    "paren", "list", "map", "not", "neg", "plus-unary", "sign-alternating", "add-chain", "and-chain", "or-chain", "pow-chain",
     "cmp-chain", "concat-chain", "right-add", "case-else", "case-when", "case-operand", "func", "index", "index-nest",
     "slice", "prop-chain", "is-null-chain", "list-comp", "pattern-comp", "quantifier", "reduce", "exists-subquery",
     "exists-pattern-where", "call-subquery", "foreach", "union-chain", "comment", "label-chain", "pattern-hops",
@@ -1534,7 +1534,8 @@ pub fn deep_text(shape: &str, depth: usize, ctx: &str, atom: &str) -> String {
         "map" => format!("{}{atom}{}", rep("{a: ", d), rep("}", d)),
         "not" => format!("{}{atom}", rep("NOT ", d)),
         "neg" => format!("{}{atom}", rep("- ", d)),
-        "plus-unary" => format!("{}{atom}", rep("+", d)),
+        "plus-unary" => format!("{}{atom}", rep("+ ", d)),
+        "sign-alternating" => format!("{}{atom}", rep("+ - ", d / 2 + 1)),
         "add-chain" => format!("{atom}{}", rep(" + 1", d)),
         "and-chain" => format!("{atom}{}", rep(" AND true", d)),
         "or-chain" => format!("{atom}{}", rep(" OR false", d)),
